@@ -306,3 +306,14 @@ def hmc_momentum_law_matches_kinetic_energy(h, d, mass):
     z = np.array([v for k, v in rng.log], dtype=object if h.sym else float)
     h.same("one standard-normal draw per parameter", len(z), d)
     h.eq("kinetic_energy(sample_momentum(z)) == z.z/2", chain.kinetic_energy(r), 0.5 * (z @ z))
+
+
+@unit("C01", quick=[dict(N=2, cp=4)], thorough=[dict(N=3, cp=2)], max_paths=20000, cost=5)
+def tempering_exchange_is_metropolis_for_the_product_target(h, N, cp):
+    """the chains run under parallel tempering: an exchange between chains i and j is a Metropolis move for the product
+    of the tempered targets iff it is accepted with min(1, exp((1/T_i - 1/T_j)(L_j - L_i))) on the *untempered*
+    log-densities and each chain afterwards carries the received point with the log-probability at its own temperature
+    (otherwise the next within-chain accept/reject compares against a wrong current value).  Same execution of the real
+    ParallelTempering.swap / tempering_process code as C08's unit, asserted here for C01."""
+    from harness import c08
+    c08.swap_is_metropolis_exchange(h, N, cp)
